@@ -22,6 +22,14 @@
  *   page <as> <frame>                  > page <status> <idx> <pfn> <uniform>
  *   rd <as> <addr>                     8 bytes at addr: > rd <status> <hex>
  *   conv <from> <to> <addr>            > conv ok <addr> | conv fail
+ *   reinit <fetch> <os> <key> <n|a|s|c|x> <value>       (<os>: expectation for the model, ignored here)
+ *        sets (n: number, a: address, s: string), clears (c) or leaves alone (x) an attribute that marks the
+ *        address translation dirty; fetch=1: the application then asks for the translation
+ *        handles again (kdump_get_addrxlat re-initialises the system and returns the same
+ *        objects), fetch=0: the next kdump_read re-initialises it lazily
+ *        > reinit <status of the set> <ok|fail: kdump_get_addrxlat | ->
+ *   kv <addr>                          a read in the kernel virtual space (needs translation, so it
+ *        runs the lazy set-up; its result is not part of this stream)        > kv done
  *   close
  * Lines the harness does not know (`dump …`, the layout for the model) print
  * nothing.
@@ -276,6 +284,37 @@ int main(void)
 			if (st == ADDRXLAT_OK) printf("> conv ok %" PRIu64 "\n", (uint64_t)fa.addr);
 			else printf("> conv fail\n");   /* nodata from the first step surfaces as nometh: any failure = missing */
 			addrxlat_ctx_clear_err(axctx);
+		} else if (!strncmp(line, "reinit ", 7)) {
+			char key[256], kind[8], val[256]; unsigned fetch, os; kdump_attr_t at; kdump_status st, s2 = KDUMP_OK;
+			if (sscanf(line, "reinit %u %u %255s %7s %255s", &fetch, &os, key, kind, val) != 5) { puts("> bad-op"); continue; }
+			if (!ctx) { puts("> reinit noctx"); continue; }
+			switch (kind[0]) {
+			case 'n': at.type = KDUMP_NUMBER; at.val.number = strtoull(val, NULL, 0); break;
+			case 'a': at.type = KDUMP_ADDRESS; at.val.address = strtoull(val, NULL, 0); break;
+			case 's': at.type = KDUMP_STRING; at.val.string = val; break;
+			default: at.type = KDUMP_NIL; break;
+			}
+			st = kind[0] == 'x' ? KDUMP_OK : kdump_set_attr(ctx, key, &at);     /* x: no change, only ask again */
+			if (st != KDUMP_OK) fprintf(stderr, "reinit set %s: %s\n", key, kdump_get_err(ctx));
+			kdump_clear_err(ctx);
+			if (fetch) {
+				addrxlat_ctx_t *c2 = NULL; addrxlat_sys_t *s2p = NULL;
+				s2 = kdump_get_addrxlat(ctx, &c2, &s2p);
+				if (s2 == KDUMP_OK) {
+					if (axsys) addrxlat_sys_decref(axsys);
+					if (axctx) addrxlat_ctx_decref(axctx);
+					axctx = c2; axsys = s2p;
+				} else fprintf(stderr, "reinit get_addrxlat after %s: %s\n", key, kdump_get_err(ctx));
+				kdump_clear_err(ctx);
+				printf("> reinit %s %s\n", kstatus_name(st), s2 == KDUMP_OK ? "ok" : "fail");   /* which failure: not part of the stream */
+			} else
+				printf("> reinit %s -\n", kstatus_name(st));
+		} else if (sscanf(line, "kv %" SCNu64, &a) == 1) {
+			size_t len = 8; unsigned char buf[8];
+			if (!ctx) { puts("> kv noctx"); continue; }
+			(void)kdump_read(ctx, KDUMP_KVADDR, a, buf, &len);
+			kdump_clear_err(ctx);
+			puts("> kv done");
 		} else if (!strncmp(line, "dump ", 5) || !line[0] || line[0] == '#') {
 			;
 		} else
